@@ -321,3 +321,22 @@ pub fn lookup_probes(l: &Logical, rng: &mut crate::rng::Rng, max_present: usize)
     v.extend(absent_probes(l, rng, 40));
     v
 }
+
+/// The schedule of logical-archive classes shared by C01/C02/C10/C12/C16: index -> (class, codec).
+pub fn logical_for(ctx: &crate::obs::Ctx, label: &str, i: u64) -> Logical {
+    let mut rng = ctx.rng(label, i);
+    let codec = R::CODECS[(i % 4) as usize];
+    // two leaf-spilling archives per codec in every 128 cases (quick: 600 cases -> ~5 per codec)
+    let class = match (i / 4) % 32 {
+        0 => gen::SizeClass::Empty,
+        1 | 2 => gen::SizeClass::One,
+        3 => gen::SizeClass::Spill,
+        4..=8 => gen::SizeClass::Medium,
+        _ => gen::SizeClass::Small,
+    };
+    let mut l = gen::gen_logical(&mut rng, class, codec);
+    // cycle deterministically through all tile types and tile compressions
+    l.tile_type = ((i / 4) % 6) as u8;
+    l.tile_compression = ((i / 24) % 5) as u8;
+    l
+}
